@@ -384,6 +384,17 @@ fn body<const B: usize, const L: usize>(c: &Case, rec: &mut Rec) -> R {
             }
         }
     }
+    // method syntax on a borrowed left operand: resolves to the by-value impls through auto-deref
+    // on the pinned tree, and to an `impl Shl<..> for &Uint` if a tree has one
+    {
+        use core::ops::{Shl, Shr};
+        uchk!("shl_uint(&self method)", (&v).shl(ua), el);
+        uchk!("shl_uint_ref(&self method)", (&v).shl(&ua), el);
+        uchk!("shr_uint(&self method)", (&v).shr(ua), er);
+        uchk!("shr_uint_ref(&self method)", (&v).shr(&ua), er);
+        // (integer-typed amounts are not called this way: once a tree implements any
+        // `Shl<_> for &Uint`, `(&v).shl(usize)` no longer auto-derefs and would not compile)
+    }
     uchk!("shl_uint", v << ua, el);
     uchk!("shr_uint", v >> ua, er);
     uchk!("shl_uint_ref", v << &ua, el);
@@ -398,7 +409,7 @@ fn body<const B: usize, const L: usize>(c: &Case, rec: &mut Rec) -> R {
 fn main() {
     let spec = PropSpec {
         id: "C05",
-        rule_text: "cases (value, amount s, Uint-typed amount) per width: values from the boundary alphabet plus two-set-bit values; s biased to 0,1,63,64,65,64k,64k+-1,BITS-1,BITS,BITS+1,64*LIMBS(+1),2^32,2^63,usize::MAX, huge amounts that wrap to something small when scaled, incremented or narrowed (k*2^61+j, k*2^58+j, 2^e+j, usize::MAX-j) and uniform in [0,BITS+64*LIMBS+1]; typed operator amounts are s clamped to the type's non-negative range; u128 / i128 amounts (not implemented on the pinned tree, probed by autoref dispatch: if a tree implements them they are checked like the others, with amounts >= 2^64 whose low half is small); Uint-typed amounts embed s, or have high limbs set (>= 2^64), or lie in [BITS,2^64); exhaustive enumeration of all values x s in 0..=BITS+66 (+6 large amounts) for BITS <= 8. Oracle: BigUint v*2^s mod 2^BITS with overflow iff v*2^s >= 2^BITS; floor(v/2^s) with overflow iff v mod 2^s != 0; sign-fill for arithmetic_shr; cyclic permutation for rotations. Non-trivial: v != 0, s > 0 and (a set bit leaves the word or s >= 64); flag-true cases are classified by how the bit left (dropped whole limb / top-limb mask / bit carry). Distinct by (width,value,s).",
+        rule_text: "cases (value, amount s, Uint-typed amount) per width: values from the boundary alphabet plus two-set-bit values; s biased to 0,1,63,64,65,64k,64k+-1,BITS-1,BITS,BITS+1,64*LIMBS(+1),2^32,2^63,usize::MAX, huge amounts that wrap to something small when scaled, incremented or narrowed (k*2^61+j, k*2^58+j, 2^e+j, usize::MAX-j) and uniform in [0,BITS+64*LIMBS+1]; typed operator amounts are s clamped to the type's non-negative range; u128 / i128 amounts (not implemented on the pinned tree, probed by autoref dispatch: if a tree implements them they are checked like the others, with amounts >= 2^64 whose low half is small); shifts through method syntax on a borrowed left operand (&v).shl(..) / (&v).shr(..) with Uint amounts (auto-deref on the pinned tree, an impl for &Uint if a tree has one); Uint-typed amounts embed s, or have high limbs set (>= 2^64), or lie in [BITS,2^64); exhaustive enumeration of all values x s in 0..=BITS+66 (+6 large amounts) for BITS <= 8. Oracle: BigUint v*2^s mod 2^BITS with overflow iff v*2^s >= 2^BITS; floor(v/2^s) with overflow iff v mod 2^s != 0; sign-fill for arithmetic_shr; cyclic permutation for rotations. Non-trivial: v != 0, s > 0 and (a set bit leaves the word or s >= 64); flag-true cases are classified by how the bit left (dropped whole limb / top-limb mask / bit carry). Distinct by (width,value,s).",
         assumptions: vec![
             "num-bigint shifts are correct (oracle)",
             "signed shift operators are only exercised with non-negative amounts (the property's stated domain)",
